@@ -11,9 +11,9 @@ class SV:
 
 class SF:
     """symbolic float. mode-specific payload: exact: z3 FP term in .t ; real: (z3 Real term .t, .err bound info) ; havoc: None"""
-    __slots__ = ('t', 'bits', 'lo', 'hi', 'exact', 'taint')
-    def __init__(s, t, bits, lo=None, hi=None, exact=False, taint=False):
-        s.t = t; s.bits = bits; s.lo = lo; s.hi = hi; s.exact = exact; s.taint = taint
+    __slots__ = ('t', 'bits', 'lo', 'hi', 'exact', 'taint', 'ik')
+    def __init__(s, t, bits, lo=None, hi=None, exact=False, taint=False, ik=None):
+        s.t = t; s.bits = bits; s.lo = lo; s.hi = hi; s.exact = exact; s.taint = taint; s.ik = ik   # ik: z3 Int term when the value is a known integer
     def __repr__(s): return 'SF%d(%s)' % (s.bits, str(s.t)[:60])
 
 class Bundle:
